@@ -53,26 +53,31 @@ const S_ST_MIN: Shape = Shape { storage: true, htyp: H_MIN, msin: 0, ids: IDS_FU
 
 /// junk ++ message ++ tail parses to the same message and the same remainder as
 /// message ++ tail. Junk strings are literal (incl. partial patterns directly in
-/// front of the real pattern); message data and tail are symbolic.
+/// front of the real pattern); message data and tail are symbolic. The search
+/// itself is replaced by its specification here (the real memchr search over 30+
+/// symbolic bytes did not finish in 15 min); that the real search meets the
+/// specification is decided by c06_search_real_memmem_8. What these harnesses
+/// decide is dlt_storage_header's use of the search result.
 fn junk_then_message(junk: &[u8]) {
     let bt = build(&S_ST_MIN, 2, None, None);
     let plain = bt.buf.slice();
     let mut j = Buf::<MAXMSG>::new();
     j.put_bytes(junk, junk.len());
     j.put_bytes(plain, plain.len());
-    let a = dlt_message(plain, None, true);
+    // message ++ tail alone parses to the message described by `bt` with remainder = tail (P(shape), C01);
+    // here: the same fields and the same remainder with junk in front
     let b = dlt_message(j.slice(), None, true);
-    match (a, b) {
-        (Ok((ra, ParsedMessage::Item(ma))), Ok((rb, ParsedMessage::Item(mb)))) => {
-            assert!(ma == mb, "junk in front of the storage header changes the message");
-            assert!(ra.len() == rb.len() && ra.len() == 2, "junk in front of the storage header changes the remainder");
-            assert!(rb.as_ptr() as usize == j.slice().as_ptr() as usize + junk.len() + bt.msg_end);
-            kani::cover!(true, "same message with and without junk");
-            std::mem::forget(ma);
-            std::mem::forget(mb);
+    match &b {
+        Ok((rb, ParsedMessage::Item(mb))) => {
+            check_headers(mb, true, S_ST_MIN.htyp, S_ST_MIN.msin, &bt.h, bt.payload_len as u16);
+            check_payload(mb, &S_ST_MIN, &bt);
+            assert!(rb.len() == 2, "junk in front of the storage header changes the remainder");
+            assert!(rb.as_ptr() as usize == j.slice().as_ptr() as usize + junk.len() + bt.msg_end, "remainder start");
+            kani::cover!(true, "same message with junk in front");
         }
         _ => assert!(false, "message behind junk not parsed"),
     }
+    std::mem::forget(b);
 }
 
 macro_rules! c06_junk {
@@ -81,8 +86,7 @@ macro_rules! c06_junk {
         #[kani::unwind(40)]
         #[kani::stub(std::fmt::format, crate::models::fmt_format_stub)]
         #[kani::stub(core::str::from_utf8, crate::models::from_utf8_stub)]
-        #[kani::stub(core::arch::x86_64::__cpuid_count, cpuid_count_stub)]
-        #[kani::stub(core::arch::x86_64::__cpuid, cpuid_stub)]
+        #[kani::stub(dlt_core::parse::forward_to_next_storage_header, crate::models::forward_stub)]
         fn $name() {
             junk_then_message(&$junk);
         }
@@ -100,8 +104,7 @@ c06_junk!(c06_junk_partial_ddl, [0x44u8, 0x4C, 0x44, 0x4C, 0x54, 0x00, 0x44]);
 #[kani::unwind(48)]
 #[kani::stub(std::fmt::format, crate::models::fmt_format_stub)]
 #[kani::stub(core::str::from_utf8, crate::models::from_utf8_stub)]
-#[kani::stub(core::arch::x86_64::__cpuid_count, cpuid_count_stub)]
-#[kani::stub(core::arch::x86_64::__cpuid, cpuid_stub)]
+#[kani::stub(dlt_core::parse::forward_to_next_storage_header, crate::models::forward_stub)]
 fn c06_stream_with_junk_between() {
     let b1 = build(&S_ST_MIN, 0, None, None);
     let b2 = build(&S_ST_MIN, 0, None, None);
@@ -109,21 +112,26 @@ fn c06_stream_with_junk_between() {
     s.put_bytes(b1.buf.slice(), b1.msg_end);
     s.put_bytes(&[0x44, 0x4C, 0x00], 3);
     s.put_bytes(b2.buf.slice(), b2.msg_end);
-    match dlt_message(s.slice(), None, true) {
+    let r1 = dlt_message(s.slice(), None, true);
+    match &r1 {
         Ok((rest, ParsedMessage::Item(m1))) => {
             assert!(m1.header.message_counter == b1.h.mcnt);
-            assert!(rest.len() == 3 + b2.msg_end);
-            match dlt_message(rest, None, true) {
-                Ok((rest2, ParsedMessage::Item(m2))) => {
-                    assert!(m2.header.message_counter == b2.h.mcnt, "second message is not the one after the junk");
-                    assert!(rest2.is_empty());
-                    kani::cover!(true, "both recovered");
-                    std::mem::forget(m2);
-                }
-                _ => assert!(false, "message after junk lost"),
-            }
-            std::mem::forget(m1);
+            assert!(rest.len() == 3 + b2.msg_end, "first message does not end where it declares");
+            assert!(rest.as_ptr() as usize == s.slice().as_ptr() as usize + b1.msg_end);
         }
         _ => assert!(false, "first message lost"),
     }
+    // continue on the remainder (re-sliced with concrete bounds; it is the slice asserted above)
+    let rest = &s.slice()[b1.msg_end..];
+    let r2 = dlt_message(rest, None, true);
+    match &r2 {
+        Ok((rest2, ParsedMessage::Item(m2))) => {
+            assert!(m2.header.message_counter == b2.h.mcnt, "second message is not the one after the junk");
+            assert!(rest2.is_empty());
+            kani::cover!(true, "both recovered");
+        }
+        _ => assert!(false, "message after junk lost"),
+    }
+    std::mem::forget(r2);
+    std::mem::forget(r1);
 }
